@@ -193,6 +193,22 @@ def handleLoader : List String → Option String
     | some ((v, x), []) =>
       some (showPyM (fun (r : Nat × Nat × Nat) => s!"{r.1} {r.2.1} {r.2.2}") (load v x))
     | _ => none
+  | "docstage" :: bnd :: warncls :: [res] =>
+    -- the construction stage of Document(path) on a healthy load: `res` = ok | !Exc ; `warncls` = 1 iff Exc is a Warning
+    let docIwa : Text := "Index/Document.iwa".toList
+    let props : Text := "Metadata/Properties.plist".toList
+    let x : Ext := { pathExists := .ok true, suffixOk := true, isDir := fun _ => .ok false, openZipPath := .ok 0,
+                     zipNames := fun _ => [docIwa, props, "Metadata/BuildVersionHistory.plist".toList, "preview.jpg".toList],
+                     zipRead := fun _ n => if n = docIwa then .ok 0 else if n = props then .ok 1
+                                           else if n = "Metadata/BuildVersionHistory.plist".toList then .ok 2 else .ok 3,
+                     openZipBytes := fun _ => .error .BadZipFile, plistVersion := fun _ => .ok (some "14.1".toList),
+                     versionOk := fun _ => true, warn := fun _ => .ok (), sniff := fun b => .ok (b == 0),
+                     decode := fun _ _ => .ok [[(1, 1), (2000123, 3)]], propsExists := .ok false, buildExists := .ok false,
+                     propsRead := .error .FileError, pkgSteps := [], isOSError := fun _ => false,
+                     isWarning := fun _ => warncls == "1", depth := 40 }
+    let build : Nat × Nat × Nat → PyM Nat := fun _ =>
+      if res == "ok" then .ok 0 else .error (excOfName (res.drop 1).toString)
+    some (showPyM (fun (_ : Nat) => "doc") (openDocument fixed (bnd == "1") x build))
   | _ => none
 
 end NumbersModel.Drv
